@@ -309,6 +309,7 @@ type runtimeState struct {
 	basicByRoute         map[string]*ingress.BasicAuth
 	forwardByRoute       map[string]*ingress.ForwardAuth
 	hmacByRoute          map[string]*ingress.HMACAuth
+	retiredHMACByRoute   map[string]*ingress.HMACAuth // replay state of routes that currently have no HMAC auth
 	ingressGlobalLimit   *tokenBucketLimiter
 	ingressRouteLimits   map[string]*tokenBucketLimiter
 	adaptiveController   *adaptiveAdmissionController
@@ -572,6 +573,18 @@ func (s *runtimeState) hmacAuthFor(route string) *ingress.HMACAuth {
 	s.mu.RLock()
 	defer s.mu.RUnlock()
 	return s.hmacByRoute[route]
+}
+
+// previousHMACAuthFor returns the authenticator that last served the route:
+// the live one, or the one retired when the route (or its HMAC auth) was
+// removed by an earlier reload.
+func (s *runtimeState) previousHMACAuthFor(route string) *ingress.HMACAuth {
+	s.mu.RLock()
+	defer s.mu.RUnlock()
+	if a := s.hmacByRoute[route]; a != nil {
+		return a
+	}
+	return s.retiredHMACByRoute[route]
 }
 
 func (s *runtimeState) basicAuthFor(route string) *ingress.BasicAuth {
@@ -949,6 +962,9 @@ func (s *runtimeState) loadAuth(compiled config.Compiled) error {
 
 		auth := ingress.NewHMACAuth(secs)
 		verifhook.Publish("app.hmacauth", auth)
+		// Replay protection must survive a reload: keep the nonces this route
+		// has already honoured.
+		auth.ShareReplayState(s.previousHMACAuthFor(rt.Path))
 		if strings.TrimSpace(rt.AuthHMACSignatureHeader) != "" {
 			auth.SignatureHeader = rt.AuthHMACSignatureHeader
 		}
@@ -989,6 +1005,14 @@ func (s *runtimeState) loadAuth(compiled config.Compiled) error {
 	s.workerByRoute = workerByRoute
 	s.basicByRoute = basicByRoute
 	s.forwardByRoute = forwardByRoute
+	for path, old := range s.hmacByRoute {
+		if old != nil && hmacByRoute[path] == nil {
+			if s.retiredHMACByRoute == nil {
+				s.retiredHMACByRoute = make(map[string]*ingress.HMACAuth)
+			}
+			s.retiredHMACByRoute[path] = old
+		}
+	}
 	s.hmacByRoute = hmacByRoute
 	s.mu.Unlock()
 	verifhook.Point("reload.auth_swapped")
